@@ -3,7 +3,7 @@
    Model: coq/IoDefs.v (lbuf_save with its guards, lbuf_wr + write_fully under a fault schedule = one
    outcome per open/write/close call, ec_write, ec_quit for q/wq/x/xa with or without !). *)
 From Coq Require Import List NArith ZArith Bool.
-From NV Require Import Bytes GenConsts IoDefs IoProps IoFaultProps IoLinkDefs IoLinkProps.
+From NV Require Import Bytes GenConsts IoDefs IoProps IoFaultProps IoLinkDefs IoLinkProps IoTableDefs IoTableProps.
 Import ListNotations.
 
 (* without `!`: a target that exists (mtime >= 0: the code takes a negative time stamp for "absent") and
@@ -168,3 +168,95 @@ Example C03_links_nonvacuous :
   (let '(lk', fs') := foreign_run (lk, fs) [FReplace 2 [121]%N 7%Z] in
    ec_write_l 9%Z false false None lk' 2 bf fs' [] = (SRefused, bf, fs', []) /\ resolve lk' 2 = Some 2).
 Proof. cbv zeta. vm_compute. repeat split; try reflexivity. eexists; eexists; eexists. repeat split; reflexivity. Qed.
+
+(* ------------------------------------------------------------------ the buffer table *)
+(* Model: coq/IoTableDefs.v.  The editor holds a table of buffers (bufs[]: slot 0 = the current buffer, slot 1 =
+   the alternate one `#`), every slot with its own path and its own recorded time stamp.  The guard clause over
+   ANY table b0 :: rest, for a write without `!` whose target is given as nothing, %, # or a name:
+   (1) the command is refused EXACTLY when the guard of lbuf_save fires for `excuse_stamp`: the recorded stamp of
+       the CURRENT buffer if the target is the current buffer's own path, 0 (= foreign) for every other target; a
+       refusal consumes and changes nothing, and no slot other than slot 0 is ever written to;
+   (2) so a target that exists (stamp >= 0) and is not the current buffer's own path, or is it with a newer stamp,
+       or is it recorded as absent, is refused -- nothing is assumed about the other slots;
+   (3) in particular a target that is the path of ANOTHER open buffer (slot i + 1, by name, or as `#` for the
+       alternate slot) is a foreign existing file: the stamp THAT slot remembers (b_mtime bi, unconstrained: it
+       normally equals the file's stamp) excuses nothing;
+   (4) the same for :wq / :x / :xa with a path argument: no quit, table and directory unchanged. *)
+Theorem C03_guard_table :
+  (forall now isx force rng lk a b0 rest fs sch path st bufs' fs' r,
+     path_of_arg (b0 :: rest) a = Some path -> skips isx b0 = false ->
+     ec_write_t now isx force rng lk a (b0 :: rest) fs sch = (st, bufs', fs', r) ->
+     (st = SRefused <-> refuses force (excuse_stamp (b0 :: rest) path) (mtime_of lk fs path) = true) /\
+     (st = SRefused -> bufs' = b0 :: rest /\ fs' = fs /\ r = sch) /\
+     tl bufs' = rest) /\
+  (forall now isx rng lk a b0 rest fs sch path c m,
+     path_of_arg (b0 :: rest) a = Some path ->
+     target lk fs path = Some (c, m) -> (0 <= m)%Z ->
+     (path <> b_path b0 \/ (m > b_mtime b0)%Z \/ b_mtime b0 = (-1)%Z) -> skips isx b0 = false ->
+     ec_write_t now isx false rng lk a (b0 :: rest) fs sch = (SRefused, b0 :: rest, fs, sch)) /\
+  (forall now isx rng lk b0 rest fs sch i bi c m,
+     nth_error rest i = Some bi -> b_path bi <> b_path b0 ->
+     target lk fs (b_path bi) = Some (c, m) -> (0 <= m)%Z -> skips isx b0 = false ->
+     ec_write_t now isx false rng lk (AName (b_path bi)) (b0 :: rest) fs sch = (SRefused, b0 :: rest, fs, sch) /\
+     (i = 0 -> ec_write_t now isx false rng lk AAlt (b0 :: rest) fs sch = (SRefused, b0 :: rest, fs, sch))) /\
+  (forall now isx all lk a b0 rest fs sch path c m,
+     path_of_arg (b0 :: rest) a = Some path ->
+     target lk fs path = Some (c, m) -> (0 <= m)%Z ->
+     (path <> b_path b0 \/ (m > b_mtime b0)%Z \/ b_mtime b0 = (-1)%Z) -> skips isx b0 = false ->
+     ec_quit_t now true isx all false lk a (b0 :: rest) fs sch = (false, SRefused, b0 :: rest, fs, sch)).
+Proof. exact (conj write_t_char (conj guard_table (conj guard_table_other_slot guard_quit_table))). Qed.
+Print Assumptions C03_guard_table.
+
+(* How a path becomes "the current buffer's own": :e[!] name / % / # makes it slot 0; a buffer that was already
+   open is only moved to the front and keeps its record (nothing is read again, its stamp is the one of ITS last
+   read or write), a new buffer records mtime() of the name, the slots that were there stay (below the capacity
+   of the table); :e! without argument reads the current buffer again and records its stamp again.  With no
+   argument the table functions are the functions over names of C03_guard_links / C03_guard_session. *)
+Theorem C03_table_edit :
+  (forall bang lk fs a bufs p bufs',
+     a <> ANone -> path_of_arg bufs a = Some p ->
+     ec_edit_t bang lk fs a bufs = (SOk, bufs') ->
+     exists b0 rest, bufs' = b0 :: rest /\ b_path b0 = p /\
+       (forall i, bufs_find bufs p = Some i -> nth_error bufs i = Some b0 /\ Permutation.Permutation bufs' bufs) /\
+       (bufs_find bufs p = None -> b0 = ec_edit_l lk fs p /\ b_mtime b0 = mtime_of lk fs p /\
+                                   (length bufs < NB -> rest = bufs))) /\
+  (forall lk fs b0 rest,
+     exists b0', ec_edit_t true lk fs ANone (b0 :: rest) = (SOk, b0' :: rest) /\
+       b_path b0' = b_path b0 /\ b_mtime b0' = mtime_of lk fs (b_path b0) /\ b_dirty b0' = false) /\
+  (forall now wr isx all bang lk b0 rest fs sch,
+     ec_quit_t now wr isx all bang lk ANone (b0 :: rest) fs sch = ec_quit_l now wr isx all bang lk (b0 :: rest) fs sch) /\
+  (forall b0 rest path,
+     path = b_path b0 \/ bufs_find rest path = None ->
+     stamp_by_find (b0 :: rest) path = excuse_stamp (b0 :: rest) path).
+Proof. exact (conj edit_t_current (conj edit_t_reload (conj ec_quit_t_none stamp_by_find_agrees))). Qed.
+Print Assumptions C03_table_edit.
+
+(* non-vacuity: start with name 0 (file stamped 5), :e 1 (file stamped 6), :e 2 (absent), :e 0 -- the table is
+   0, 2, 1.  From buffer 0 (modified): :w 1, :w # (= 2, created meanwhile by someone else with stamp 7), :x 1 and
+   :wq 1 are refused with nothing changed although slot 2 remembers exactly the stamp 6 of file 1; :w! 1 writes it;
+   :w (own, unchanged) succeeds.  The stamp looked up through bufs_find (NOT what the code does) would excuse
+   file 1: the guard would not fire. *)
+Example C03_table_nonvacuous :
+  let fs := [(0, ([120; 10]%N, 5%Z)); (1, ([121; 10]%N, 6%Z))] in
+  let t1 := snd (ec_edit_t false [] fs (AName 0) []) in
+  let t2 := snd (ec_edit_t false [] fs (AName 1) t1) in
+  let t3 := snd (ec_edit_t false [] fs (AName 2) t2) in
+  let t4 := snd (ec_edit_t false [] fs (AName 0) t3) in
+  let fs' := snd (foreign_run ([], fs) [FWrite 2 [122]%N 7%Z]) in
+  let tbl := match t4 with b0 :: rest => {| b_lines := [[97; 10]]%N; b_path := b_path b0; b_mtime := b_mtime b0; b_dirty := true |} :: rest
+                          | [] => [] end in
+  map b_path t4 = [0; 2; 1] /\ map b_mtime t4 = [5; -1; 6]%Z /\
+  ec_write_t 9%Z false false None [] (AName 1) tbl fs' [] = (SRefused, tbl, fs', []) /\
+  ec_write_t 9%Z false false None [] AAlt tbl fs' [] = (SRefused, tbl, fs', []) /\
+  ec_write_t 9%Z true false None [] (AName 1) tbl fs' [] = (SRefused, tbl, fs', []) /\
+  ec_quit_t 9%Z true false false false [] (AName 1) tbl fs' [] = (false, SRefused, tbl, fs', []) /\
+  (exists t' f' r, ec_write_t 9%Z false true None [] (AName 1) tbl fs' [] = (SOk, t', f', r) /\ fs_content f' 1 = Some [97; 10]%N /\ t' = tbl) /\
+  (exists t' f' r, ec_write_t 9%Z false false None [] ANone tbl fs' [] = (SOk, t', f', r) /\ fs_content f' 0 = Some [97; 10]%N /\
+                   map b_mtime t' = [9; -1; 6]%Z /\ map b_dirty t' = [false; false; false]) /\
+  stamp_by_find tbl 1 = 6%Z /\ excuse_stamp tbl 1 = 0%Z /\
+  refuses false (stamp_by_find tbl 1) (mtime_of [] fs' 1) = false /\ refuses false (excuse_stamp tbl 1) (mtime_of [] fs' 1) = true.
+Proof.
+  cbv zeta. vm_compute. repeat split; try reflexivity.
+  - eexists; eexists; eexists. repeat split; reflexivity.
+  - eexists; eexists; eexists. repeat split; reflexivity.
+Qed.
